@@ -132,7 +132,8 @@ TakeResult(e) ==
               IN IF e.err # "" THEN [sel |-> s1, bad |-> pre \cup {"C02.take_raised"}, ok |-> FALSE]
                  ELSE LET r == ApplyAuto(s1, e.auto, 1) IN [sel |-> r.sel, bad |-> pre \cup r.bad, ok |-> TRUE]
 
-InitResult(e) == LET r == ApplyAuto(NoSel(G), e.auto, 1) IN [sel |-> r.sel, bad |-> r.bad, ok |-> TRUE]
+InitResult(e) == IF e.err # "" THEN [sel |-> NoSel(G), bad |-> {IF G.cons # <<>> THEN "C13.constrain_choices_raised" ELSE "C02.initialisation_raised"}, ok |-> FALSE]
+                 ELSE LET r == ApplyAuto(NoSel(G), e.auto, 1) IN [sel |-> r.sel, bad |-> r.bad, ok |-> TRUE]
 
 Tag(S) == {<<c, l>> : c \in S}
 
